@@ -1,6 +1,6 @@
 (* Extraction of the compiled-runtime model M3 (ExtrOcamlBasic only). Compiled by `./check setup`, not part of make. *)
 From Coq Require Import ExtrOcamlBasic.
-From Rex Require Import CompiledModel RunnerSym CheckSym Replay.
+From Rex Require Import CompiledModel RunnerSym CheckSym Replay BufferSufficient ExportReplay.
 Extraction Language OCaml.
 Set Extraction Output Directory ".".
-Extraction "cmodel.ml" Build_inst check_schedule buffer_need rollout_probe r_log win_model check_sym check_replay.
+Extraction "cmodel.ml" Build_inst check_schedule buffer_need rollout_probe r_log win_model check_sym check_replay extra_ok sched_ok.
